@@ -57,6 +57,8 @@ class Built:
         self.rlog = {}         # r -> [(n_or_high, indices) per local call]
         self.stack = []        # resample ids currently executing
         self.root = None
+        self.nodes = []        # (spec, object) of every node of the tree
+        self.tree_root = None  # the tree's root object (below the optional SamplerGenerator)
 
 
 def build(torch, G, SpyLeaf, top):
@@ -73,6 +75,11 @@ def build(torch, G, SpyLeaf, top):
     # (T2 adds the coordinates over the common prefix, so that it is total on columns of unequal length, like sum_cols)
 
     def mk(s):
+        o = mk1(s)
+        b.nodes.append((s, o))
+        return o
+
+    def mk1(s):
         op = s['op']
         if op == 'leaf':
             g = SpyLeaf(s['id'], s['dims'], [s['size']], s['form'])
@@ -150,6 +157,7 @@ def build(torch, G, SpyLeaf, top):
         except Exception as e:
             e._partial = b          # what was built and drawn before a constructor raised
             raise
+        b.tree_root = g
         if top.get('sampler'):
             g = G.SamplerGenerator(g)
     b.root = g
@@ -167,12 +175,15 @@ def run_real(torch, G, SpyLeaf, top):
         res['partial'] = getattr(e, '_partial', None)
         return res
     res['built'] = b
+    raws = []
+    res['interference'] = []
     for _ in range(top['calls']):
         res['sizes'].append(int(b.root.size))
         try:
             with gd.scripted_rng(torch, b.script):
                 x = b.root.get_examples()
             form, cols = gd.to_cols(x, torch, two_d=bool(top.get('sampler')))
+            raws.append((x, list(x) if isinstance(x, (list, tuple)) else [x], gd.to_cols(x, torch, two_d=bool(top.get('sampler')))[1]))
             res['outs'].append((bool(top.get('sampler')), form, cols))
             res['filter_sizes'].append({m: (int(f.size), sum(b.masks[m][-1]) if b.masks[m] else None) for m, f in b.filters.items()})
         except gd.Malformed as e:
@@ -183,7 +194,77 @@ def run_real(torch, G, SpyLeaf, top):
             break
     else:
         res['sizes'].append(int(b.root.size))
+        res['interference'] = interference(torch, G, b, top, raws)
     return res
+
+
+class _Guard(Exception):
+    pass
+
+
+def interference(torch, G, b, top, raws):
+    """Non-interference: consumers put on top of the tree (a BatchGenerator streaming from it, a SamplerGenerator)
+    must not change what the generators below return, nor modify objects that were already handed out.
+    -> [(key, description)]"""
+    probs = []
+    consts = [(s, o) for s, o in b.nodes if s['op'] in ('predef', 'static')]
+    before = {}
+    for s, o in consts:
+        try:
+            x = o.get_examples()
+            before[id(o)] = (gd.to_cols(x, torch), x, list(x) if isinstance(x, (list, tuple)) else [x])
+        except Exception:
+            pass
+    bs = 1 + top.get('rng_seed', 0) % 4
+    consumer = f'BatchGenerator(<tree>, {bs}) drawn twice, SamplerGenerator(<tree>) drawn once'
+    root = b.tree_root
+    inner = root.get_examples
+    count = {'n': 0}
+
+    def guarded():
+        count['n'] += 1
+        if count['n'] > 60:
+            raise _Guard()
+        return inner()
+    root.get_examples = guarded
+    try:
+        with gd.scripted_rng(torch, b.script):
+            try:
+                bg = G.BatchGenerator(root, bs)
+                bg.get_examples()
+                bg.get_examples()
+            except Exception:
+                pass
+            try:
+                G.SamplerGenerator(root).get_examples()
+            except Exception:
+                pass
+    finally:
+        root.get_examples = inner
+    for s, o in consts:
+        if id(o) not in before:
+            continue
+        (form0, cols0), x0, members0 = before[id(o)]
+        try:
+            form1, cols1 = gd.to_cols(o.get_examples(), torch)
+        except Exception as e:
+            probs.append((f'interference/{s["op"]}', f'after {consumer}, {s["op"]} generator raises {type(e).__name__}'))
+            continue
+        if (form1, cols1) != (form0, cols0):
+            probs.append((f'interference/{s["op"]}',
+                          f'after {consumer}, the {s["op"]} generator returns {[len(c) for c in cols1]} values per dimension as {form1}; '
+                          f'before it returned {[len(c) for c in cols0]} as {form0} (same points forever?)'))
+        elif isinstance(x0, (list, tuple)) and (len(x0) != len(members0) or any(a is not m for a, m in zip(x0, members0))):
+            probs.append((f'interference/{s["op"]}', f'after {consumer}, the {type(x0).__name__} the {s["op"]} generator returned earlier was modified in place'))
+    m = gd.raw_mutated(raws, torch) if not top.get('sampler') else None
+    if m:
+        probs.append(('result-mutated/' + top['tree']['op'], f'after {consumer}: {m}'))
+    for leaf in b.leaves.values():
+        m = leaf.mutated()
+        if m:
+            probs.append(('leaf-draw-mutated', f'after {consumer}: {m}'))
+            break
+    return probs
 
 
 # ------------------------------------------------------------------ reference interpreter (from the property text)
